@@ -34,8 +34,8 @@ def check(ctx):
     asg = {src(n.targets[0]): src(n.value) for n in ast.walk(ini) if isinstance(n, ast.Assign)}
     ctx.check(asg.get("self.timer") == "StoreTimer(stack.stamper, duration=self.timeout)" and
               asg.get("self.redoTimer") == "StoreTimer(stack.stamper, duration=self.redoTimeout)" and
-              asg.get("self.timeout") == "timeout if timeout is not None else self.Timeout" and
-              asg.get("self.redoTimeout") == "redoTimeout if redoTimeout is not None else self.RedoTimeout", "D4-ctor", ini,
+              asg.get("self.timeout") == "self.Timeout if timeout is None else timeout" and
+              asg.get("self.redoTimeout") == "self.RedoTimeout if redoTimeout is None else redoTimeout", "D4-ctor", ini,
               "timeout/redoTimeout default to the class values only when None (0.0 is kept) and drive StoreTimers on the stack's stamper", "")
     for cn in ("Exchanger", "Exchangent"):
         c = ctx.cls("exchanging", cn)
